@@ -2444,7 +2444,16 @@ impl<'a, R: FileManager> FrontendCtx<'a, R> {
                         };
                         let q = self.get_addressed_qualified_value(&new_addr, &anchor);
                         if let Ok(q) = q {
-                            return self.member_access_qualified_value(&q, key, &anchor);
+                            // `const a = { x: a.x }`: a value read while it is being typed has no type
+                            if !self.typing_values.insert(new_addr.clone()) {
+                                return self.error(
+                                    &anchor,
+                                    DiagnosticInfoMessage::CannotNotResolveValue(new_addr),
+                                );
+                            }
+                            let res = self.member_access_qualified_value(&q, key, &anchor);
+                            self.typing_values.remove(&new_addr);
+                            return res;
                         }
                         let decl = self.get_addressed_value(&new_addr, &anchor)?;
                         match decl {
